@@ -17,7 +17,7 @@ type SaveLoadPlan struct {
 	TMax      uint64 `json:"tmax"`       // target maximum (0: same as the source's current maximum)
 	ChunkSeed uint64 `json:"chunk_seed"` // short-read pattern of the reader
 	MaxChunk  int    `json:"max_chunk"`
-	CleanUp   bool   `json:"cleanup"` // run CleanUp on the source before saving
+	CleanUp   bool   `json:"cleanup"`            // run CleanUp on the source before saving
 	ReadAdv   int64  `json:"read_adv,omitempty"` // the stream is slow: every Read of the load moves the clock by this much
 }
 
